@@ -51,6 +51,9 @@ def hasSuffix (s p : String) : Bool := p.toList.reverse.isPrefixOf s.toList.reve
 def dropChars (s : String) (n : Nat) : String := String.ofList (s.toList.drop n)
 def takeChars (s : String) (n : Nat) : String := String.ofList (s.toList.take n)
 
+/-- everything before the first space (`strings.IndexByte(s, ' ')`) -/
+@[irreducible] def firstWord (s : String) : String := String.ofList (s.toList.takeWhile (· != ' '))
+
 /-- `strings.Split(s, sep)` for a single-character separator -/
 def splitChar (s : String) (sep : Char) : List String :=
   let rec go (cs : List Char) (cur : List Char) (acc : List String) : List String :=
